@@ -89,7 +89,7 @@ def gen_cfg(prop, rng, tier, kind=None):
     if rng.random() < 0.2:
         prof["cancel"] = 0.0   # fault-free configuration (oracles must hold there without relaxation)
     knobs = {"kind": kind, "cfg": cfg, "K": K, "nops": nops, "prios": prios, "lattice": lat_name, "prof": prof,
-             "filters": rng.random() < 0.6}
+             "filters": rng.random() < 0.6, "drain": prop in ("C02", "C04", "C01", "C06") and rng.random() < 0.4}
     return knobs
 
 
@@ -110,11 +110,44 @@ class GenA:
 
     def __call__(self, h):
         if self.count >= self.k["nops"]:
-            return None
+            return self.drain(h) if self.k.get("drain") else None
         self.count += 1
         op = self.pick(h)
         self.last = op
         return op
+
+    def drain(self, h):
+        """Fault-free closing phase: withdraw every outstanding reservation, then take everything out one retrieval at a
+        time.  The run's end-of-run oracle then demands an empty store (every item that was put is retrievable)."""
+        if h.kind == "prs":
+            return None
+        self.dcount = getattr(self, "dcount", 0) + 1
+        if self.dcount > 6 * (h.cap + 4) + 40:
+            return None
+        toks = list(h.toks.values())
+        for t in toks:
+            if t.state in ("pending", "granted") and not (t.kind == "g" and getattr(self, "drain_tok", None) == t.name):
+                return ["cp" if t.kind == "p" else "cg", t.c, t.name]
+        dt = getattr(self, "drain_tok", None)
+        if dt is not None:
+            t = h.toks[dt]
+            if t.state == "granted":
+                self.drain_tok = None
+                return ["get", t.c, t.name]
+            if t.state == "pending":
+                nxt = h.env.peek()
+                if nxt <= h.env.now:
+                    return ["adv", 0, "after"]
+                if nxt == INF:
+                    h.drain_stuck = True     # nothing will ever happen: the final oracle judges what is left
+                    return None
+                return ["adv", nxt - h.env.now, "after"]
+            self.drain_tok = None
+        if h.held == 0:
+            h.probe("drained_to_empty")
+            return None
+        self.drain_tok = self.name("g")
+        return ["rg", 0, 0, None, self.drain_tok]
 
     def pick(self, h):
         rng, P = self.rng, self.k["prof"]
@@ -240,5 +273,5 @@ def make_case(prop, rng, tier, kind=None):
     if k["kind"] == "sconv":
         fa += rng.choice([0, 1, 2]) * cfg["delay"] * cfg["cap"]
     case = {"layer": "A", "kind": k["kind"], "cfg": cfg, "nclients": k["K"], "ops": [], "final_adv": fa,
-            "meta": {"prop": prop, "lattice": k["lattice"], "prios": k["prios"]}}
+            "meta": {"prop": prop, "lattice": k["lattice"], "prios": k["prios"], "drain": bool(k.get("drain"))}}
     return case, GenA(rng, k)
